@@ -11,7 +11,7 @@ BIG_IO = lambda a: "-m" in a        # which command lines of cases.rand_cli the 
 
 
 def _run_once(chk):
-    chk.rule = ("n in 1..5 parts, 1-3 bounds resolvable on n (single, range, open, negative); `-m B` against the rewritten list without -m; "
+    chk.rule = ("n in 1..5 parts, 1-3 bounds resolvable on n (single, range, open, negative); `-m B` against the rewritten list without -m (also as format text with literal text around the bounds); "
                 "modes -f (general path; multi-byte delimiters too), --json, -l, with -j / -r R; all-covering lists must fail; non-trivial "
                 "= selects a byte or fails")
     run_corpus(chk)
@@ -22,7 +22,7 @@ def _run_once(chk):
     for _ in range(cnt):
         n = rng.randint(1, 5)
         nb = rng.randint(1, 3)
-        bs, rew = [], []
+        bs, rew, rew_per = [], [], []
         for _ in range(nb):
             while True:
                 l = rng.choice(sides(n))
@@ -33,10 +33,13 @@ def _run_once(chk):
                     break
             lo, hi = resolve_py(l, r, n)
             bs.append(bound_text(l, r, None, l == r))
+            mine = []
             if lo > 1:
-                rew.append(f"1:{lo - 1}" if lo - 1 > 1 else "1")
+                mine.append(f"1:{lo - 1}" if lo - 1 > 1 else "1")
             if hi < n:
-                rew.append(f"{hi + 1}:{n}" if hi + 1 < n else f"{n}")
+                mine.append(f"{hi + 1}:{n}" if hi + 1 < n else f"{n}")
+            rew.extend(mine)
+            rew_per.append(mine)
         mode = rng.choice(["f", "f", "json", "l"])
         z = rng.random() < 0.15
         eol = b"\0" if z else b"\n"
@@ -62,13 +65,20 @@ def _run_once(chk):
             c.update({"eng": "lines", "bt": "l", "d": eol, "in": eol.join(ls) + eol, "j": rng.random() < 0.8})
         ca = dict(c)
         ca["b"] = ",".join(bs)
+        tb = ",".join(rew)
+        if mode == "f" and rng.random() < 0.3:
+            # the same request as format text (literal text before, between and after the bounds): `-m '[{2}]'` is `'[{1,3:}]'`
+            pre = rng.choice(["", "[", "<"])
+            seps = [rng.choice(["", "|", "]", " "]) for _ in bs]
+            ca["b"] = pre + "".join("{" + b + "}" + sp for b, sp in zip(bs, seps))
+            tb = pre + "".join(("{" + ",".join(mine) + "}" if mine else "") + sp for mine, sp in zip(rew_per, seps))
         ca["m"] = True
         ca = normalise_field_case(ca)
         if not rew:
             expect_fail.append(ca)
             continue
         cb = dict(c)
-        cb["b"] = ",".join(rew)
+        cb["b"] = tb
         A.append(ca)
         B.append(normalise_field_case(cb))
     for c in A[:4]:
